@@ -9,7 +9,7 @@ OUT=/tmp/confirm/result.tsv
 mkdir -p /tmp/confirm; : > $OUT
 git -C /repo worktree remove --force $WT 2>/dev/null; rm -rf $WT
 git -C /repo worktree add --detach $WT HEAD >/dev/null 2>&1 || { echo "cannot create worktree"; exit 2; }
-IDS="$@"; [ -z "$IDS" ] && IDS=$(ls $ROOT)
+IDS="$@"; [ -z "$IDS" ] && IDS=$(ls $ROOT | grep "^C[0-9][0-9]-")
 for id in $IDS; do
   prop=${id%-*}; s=${id#*-}
   src=$ROOT/$id
